@@ -767,9 +767,9 @@ theorem k_step {mc : Nat} {wl : Bytes} {c : Conn} (h : K mc wl c)
     rw [hph] at h
     obtain ⟨L0, F, rp, rq, script0, hsv, hinfo, hp, hsuf⟩ := h
     have hst := C07.handler_step c r hh hph
-    rcases hhp : handlerPoll (handlerFuel c.env r) r hh c.env with ⟨r1, hh1, e1, hres⟩
-    have hpost := handlerPoll_hi (handlerFuel c.env r) r hh c.env hp.1 hsuf
-    have hown := handlerPoll_hp (handlerFuel c.env r) r hh c.env hp hsuf
+    rcases hhp : handlerPoll ((handlerFuel c.env r + scriptOf c)) r hh c.env with ⟨r1, hh1, e1, hres⟩
+    have hpost := handlerPoll_hi ((handlerFuel c.env r + scriptOf c)) r hh c.env hp.1 hsuf
+    have hown := handlerPoll_hp ((handlerFuel c.env r + scriptOf c)) r hh c.env hp hsuf
     rw [hhp] at hst hpost hown
     have hp1 : HP _ _ script0 r1 hh1.writers e1 := ⟨hpost.1, hown⟩
     cases hres with
